@@ -141,8 +141,6 @@ def main(argv=None):
                 json.dump(baseline, f, indent=1)
         for key, why in pv['outside']:
             undecided.append((key, 'outside-subset: ' + why))
-        if not pv['obligations'] and not fault:
-            fault.append('zero obligations generated for %s' % pid)
         # vacuity guards: preconditions and (invariant and guard) must be satisfiable
         for cv in pv['covers']:
             if cv['status'] == 'vacuous':
@@ -180,6 +178,41 @@ def main(argv=None):
                 violations.append((r['name'], rp, ' no-failing-input-found'))
             else:
                 undecided.append((r['name'], 'refuted by the solver, not in the discharged baseline and not reproduced on the real code'))
+
+    # ---------------------------------------------------------------- 1b. frame obligations (effect analysis)
+    from pvf.properties import EFFECTS
+    if pid in EFFECTS and not a.no_pyvc:
+        try:
+            from pvf import effects as _eff
+            eobs = [o for o in _eff.analyse() if EFFECTS[pid](o)]
+            pv['assumptions'].extend(_eff.ASSUMPTIONS)
+            pv['functions'].append(dict(name='effect analysis over %d modules' % len(_eff.MODULES), kind='frame', family='effects',
+                                        paths=0, obligations=len(eobs), discharged=sum(o['status'] == 'discharged' for o in eobs),
+                                        source_hash=None, lines=None, wall_s=0))
+            pv['by_backend']['effect-analysis'] = sum(o['status'] == 'discharged' for o in eobs)
+            for o in eobs:
+                o['family'] = 'effects'
+                pv['obligations'].append(o)
+                if o['status'] == 'discharged':
+                    continue
+                clear_cut = any(k in o['name'] for k in ('/module-state@', '/hidden-state@', '/global-rebind@', '/id-flow@', '/settings-flow@')) \
+                    or 'reachable from the printed value' in o['reason'] or 'non-local object' in o['reason']
+                if not clear_cut:
+                    undecided.append((o['name'], 'frame rule does not cover this site: ' + o['reason']))
+                    continue
+                k = match_known(known, 'effects', ob_class(o['name']), [])
+                if k is not None:
+                    known_lines.append('KNOWN-FINDING: property=%s %s' % (pid, k.get('what', o['name'])))
+                    continue
+                rp = write_replay(pid, o['name'], dict(property=pid, source='effects', obligation=o['name'], reason=o['reason'],
+                                                       line=o['lineno'], code=o.get('source'), function=o['function'],
+                                                       note='frame obligation decided on the source text: there is no input to replay'))
+                violations.append((o['name'], rp, ' no-failing-input-found'))
+        except Exception:
+            fault.append('effect analysis crashed:\n' + traceback.format_exc())
+
+    if (prop['families'] or pid in EFFECTS) and not a.no_pyvc and not pv['obligations'] and not fault:
+        fault.append('zero obligations generated for %s' % pid)
 
     # ---------------------------------------------------------------- 2. bounded stand-in
     bd = None
@@ -248,7 +281,7 @@ def main(argv=None):
         json.dump(ev, f, indent=1, default=str)
 
     # ---------------------------------------------------------------- 4. verdict
-    print('%s tier=%s: pyvc %d/%d obligations discharged over %d functions, %d lemmas; bounded: %s evaluations; %.1fs' % (
+    print('%s tier=%s: %d/%d obligations discharged (pyvc + effect analysis) over %d functions, %d lemmas; bounded: %s evaluations; %.1fs' % (
         pid, tier, n_dis, n_ob, len(pv['functions']), len(pv['lemmas']), bd['evaluations'] if bd else '-', time.time() - t0))
     for n, w in undecided:
         print('UNDECIDED property=%s obligation=%s reason=%s' % (pid, n, w.replace('\n', ' ')[:300]))
@@ -313,10 +346,15 @@ def run_bounded(modname, tier, seed):
 
 def explanation(pid, pv, bd):
     parts = []
-    if pv['functions']:
+    fns = [f for f in pv['functions'] if f.get('kind') != 'frame']
+    frames = [f for f in pv['functions'] if f.get('kind') == 'frame']
+    if fns:
         parts.append('pyvc generated verification conditions from the current source of %d functions (%s) and %d lemmas; '
                      'each obligation is discharged for all inputs by z3/cvc5 under the encoding of DESIGN.md 2.3.' % (
-                         len(pv['functions']), ', '.join(f['name'].split(':')[-1] for f in pv['functions']), len(pv['lemmas'])))
+                         len(fns), ', '.join(f['name'].split(':')[-1] for f in fns), len(pv['lemmas'])))
+    if frames:
+        parts.append('Frame obligations (%d) decided per mutation site / module-level binding / id() call / settings flow by the effect '
+                     'analysis of pvf/effects.py over the ast of the current source.' % sum(f['obligations'] for f in frames))
     if bd:
         parts.append('Bounded stand-in (never counted as proved): ' + bd['rule'])
     return ' '.join(parts) or 'no machinery ran'
